@@ -103,7 +103,8 @@ def _virtual_structural(ctx, virt, seps):
     seps = {x for x in seps if isinstance(x, str)} or {"?", "|"}
 
     def inline(f, t, d):
-        return d < 3 and f.cls is virt and f.name != "__init__"
+        # methods of the class and small module-level helpers of its module (a function that finds the separator)
+        return d < 3 and f.name != "__init__" and (f.cls is virt or (f.cls is None and f.module is virt.module))
 
     w = Walker(prog, ctx.resolver, inline=inline, merge_loops=True)
     problems = set()
@@ -170,7 +171,7 @@ def virtual_roundtrip(ctx, rep, rule, virt, seps, reals=None, argsets=None, what
     undetermined = False
 
     def inline(f, t, d):
-        return d < 3 and f.cls is virt and f.name != "__init__"
+        return d < 3 and f.name != "__init__" and (f.cls is virt or (f.cls is None and f.module is virt.module))
 
     n_cases = 0
     for R in (reals or REALS):
